@@ -26,9 +26,11 @@ pub fn build_universe(rng: &mut Rng, n_replicas: usize, steps: usize, cfg: &GenC
         }
     }
     base.commit();
+    log.push(format!("r0 actor {}", base.get_actor()));
     reps.push(base);
     for i in 1..n_replicas {
         let f = reps[0].fork().with_actor(gen::actor(rng, i));
+        log.push(format!("r{} fork of r0, actor {}", i, f.get_actor()));
         reps.push(f);
     }
     let mut head_sets: Vec<Vec<ChangeHash>> = vec![reps[0].get_heads()];
@@ -45,6 +47,33 @@ pub fn build_universe(rng: &mut Rng, n_replicas: usize, steps: usize, cfg: &GenC
                 if !matches!(ok, Ok(true)) {
                     eprintln!("SELFCHECK replica {} broken ({:?}) after: {:#?}", i, ok.err().map(|p| p.message), log);
                     std::process::exit(3);
+                }
+            }
+        }
+        if let Ok(dir) = std::env::var("VERIF_DUMP_EDIT_PANIC") {
+            // after every step: do the in-memory indexes of every replica agree with a reloaded copy?
+            for (i, rp) in reps.iter().enumerate() {
+                let mut c = rp.clone();
+                let bytes = c.save();
+                let re = match AutoCommit::load(&bytes) { Ok(d) => d, Err(e) => { eprintln!("INDEXCHECK load failed {} log {:#?}", e, log); std::process::exit(4); } };
+                for (obj, ty) in gen::reachable(&c) {
+                    if ty != ObjType::List { continue; }
+                    let (la, lb) = (c.length(&obj), re.length(&obj));
+                    let mut bad = la != lb;
+                    for k in 0..la.min(lb) {
+                        if format!("{:?}", c.get_all(&obj, k)) != format!("{:?}", re.get_all(&obj, k)) { bad = true; }
+                    }
+                    for k in 1..=la {
+                        let mut p = c.clone();
+                        if guard(|| { let _ = automerge::transaction::Transactable::insert(&mut p, &obj, k, automerge::ScalarValue::Null); }).is_err() { bad = true; }
+                    }
+                    if bad {
+                        eprintln!("INDEXCHECK replica {} obj {:?} len mem {} reloaded {}", i, obj, la, lb);
+                        for k in 0..la.max(lb) { eprintln!("  {} mem {:?} | reloaded {:?}", k, c.get_all(&obj, k), re.get_all(&obj, k)); }
+                        eprintln!("log {:#?}", log);
+                        std::fs::write(format!("{}/indexcheck.bin", dir), &bytes).unwrap();
+                        std::process::exit(5);
+                    }
                 }
             }
         }
@@ -98,8 +127,8 @@ pub fn build_universe(rng: &mut Rng, n_replicas: usize, steps: usize, cfg: &GenC
                 reps[r].commit();
                 let a = gen::actor(rng, next_actor);
                 next_actor += 1;
+                log.push(format!("r{} set_actor {}", r, a));
                 reps[r].set_actor(a);
-                log.push(format!("r{} set_actor", r));
             }
             _ => {
                 reps[r].commit();
@@ -274,6 +303,26 @@ pub fn run(rng: &mut Rng, tier: &str, out: &str) -> Report {
                 json!({"kind": "deliveries", "props": ["C01", "C02", "C05", "C04", "C38"], "universe": ui, "schedule": si, "log": u.log, "batches": batches}),
             ));
             rep.count("schedules");
+        }
+
+        // ---------- every replica, as edited and merged in memory, equals a reloaded copy of itself ----------
+        // (local edits and merges maintain indexes incrementally, load rebuilds them: same changes, same state)
+        for (ri, r) in u.replicas.iter_mut().enumerate() {
+            let bytes = r.save();
+            let mine = guard(|| render_plain(r.document(), &cands));
+            let re = guard(|| Automerge::load(&bytes).map(|d| render_plain(&d, &cands)));
+            match (mine, re) {
+                (Ok(a), Ok(Ok(b))) => {
+                    if a != b {
+                        rep.fail(&["C01", "C02", "C11"], "hist|memory-vs-reloaded",
+                            &format!("replica {} as edited in memory reads differently from load(save(replica))", ri),
+                            json!({"universe": ui, "log": u.log, "replica": ri}));
+                    }
+                }
+                (Ok(_), Ok(Err(e))) => rep.fail(&["C11", "C06"], "hist|replica-save-not-loadable", &format!("save() of replica {} does not load: {}", ri, e), json!({"universe": ui, "log": u.log})),
+                (Err(p), _) | (_, Err(p)) => rep.fail(&["C37", "C02"], &format!("panic|read|{}", p.signature()), &format!("reading replica {} panicked: {}", ri, p.message), json!({"universe": ui, "log": u.log})),
+            }
+            rep.count("replicas_vs_reloaded");
         }
 
         // ---------- other paths to the same set of changes (C01) ----------
